@@ -30,7 +30,7 @@ ASSUMPTIONS = [
 
 @st.composite
 def params(draw, tier):
-    p = draw(gen.tissue_params(kinds=("voronoi", "moebius", "moebius", "moebius"), lattices=("square", "hex"),
+    p = draw(gen.tissue_params(kinds=("voronoi", "moebius", "moebius", "moebius"), lattices=("square", "hex", "brick"),
                                max_cells=34, min_cells=10, allow_sub=True,
                                n_int_max=10, pose=True, labels=True))
     if p.get("sub") and draw(st.integers(0, 2)) > 0:
@@ -43,6 +43,12 @@ def params(draw, tier):
     if p["kind"] in ("square", "hex"):
         # four-fold (square) and regular three-fold junctions: displaced so that openings are generic
         p["noise"] = draw(st.sampled_from([0.1, 0.3, 0.5]))
+    if p["kind"] == "brick":
+        # exactly straight-through T-junctions (opening exactly pi): 'no limit' must still exclude nothing
+        p["noise"] = 0.0
+        p["limit"] = draw(st.sampled_from(["inf", "inf", "default", 0.8]))
+        p["pose"]["rot_mode"] = "zero"
+        p["n_int"] = {"mode": "const", "k": draw(st.integers(0, 3))}
     p["nseed"] = draw(st.integers(0, 2 ** 32 - 1))
     p["rhs"] = draw(st.sampled_from(["static", "static", "velocity"]))
     p["method"] = draw(st.sampled_from([None, None, "lsq"]))
@@ -180,6 +186,9 @@ def check_case(p, ctx):
     f_fresh = make_frame(R_fresh, 0, time=0.0)
     fresh = call(ffm.ForceMatrix, f_fresh, "none", "none", {}, {}, np.inf, p["fit"])
     Afull = np.asarray(fresh.matrix, float)
+    if Afull.shape[1] != E:
+        # a fresh matrix without limit must have one column per internal interface, whatever was built before
+        return ctx.violation("unlimited-fresh-matrix-columns", p, observed=int(Afull.shape[1]), expected=E)
     keep_cols = [k for k in range(E) if k not in exp_excl]
     rows_full = dict(fresh.map_vid_to_row)
     rows_now = dict(fm.map_vid_to_row)
